@@ -55,8 +55,31 @@ struct Ex<'a> {
     scratch: Report,
 }
 impl<'a> Ex<'a> {
+    /// one decoder run; the trace is normalised so that the engine does not depend on the decoder's
+    /// access style: zero-length accesses are dropped and a bulk `consume_bits(8n)` region is
+    /// presented as n byte-sized reads
     fn trace(&mut self, p: &[u8], t: usize) -> crate::decode::Run {
-        self.eng.run(p, t, &mut self.scratch, &|| json!(null))
+        let mut r = self.eng.run(p, t, &mut self.scratch, &|| json!(null));
+        let mut norm = Vec::with_capacity(r.trace.len());
+        for &(o, l, c) in &r.trace {
+            if l == 0 {
+                continue;
+            }
+            if c {
+                let mut off = o;
+                let mut left = l;
+                while left > 0 {
+                    let w = left.min(8);
+                    norm.push((off, w, false));
+                    off += w;
+                    left -= w;
+                }
+            } else {
+                norm.push((o, l, false));
+            }
+        }
+        r.trace = norm;
+        r
     }
 }
 
@@ -137,7 +160,8 @@ fn check_number(rep: &mut Report, n: u16, caps: &[usize]) {
         let mut p = base.clone();
         set_bits(&mut p, o as usize, l as usize, 1);
         let x1 = ex.trace(&p, PAYLOAD_MAX);
-        if x1.trace.len() > x0.trace.len() {
+        // a count: one more element makes the decoder read further (whatever access style it uses)
+        if x1.needed_bits > x0.needed_bits {
             sites.push((o, l));
         }
     }
